@@ -614,13 +614,20 @@ func init() {
 			r := fr.i.symAtoi(fr, args[0], "ParseInt").(tuple)
 			return tuple{fr.i.conv(types.Typ[types.Int64], types.Typ[types.Int], r[0]), r[1]}
 		}
-		panic(engineError{"strconv.ParseInt symbolic with base != 10"})
+		if b, ok := args[1].(int); ok && b == 0 {
+			return fr.i.symParseIntBase0(fr, args[0])
+		}
+		panic(engineError{"strconv.ParseInt symbolic with base other than 0 or 10"})
 	})
 	reg("strconv.FormatInt", func(fr *frame, args []value) value {
 		if allConcrete(args) {
 			return strconv.FormatInt(args[0].(int64), int(asInt64(args[1])))
 		}
-		panic(engineError{"strconv.FormatInt symbolic"})
+		if b, ok := args[1].(int); ok && b == 10 {
+			t := mustTerm(args[0])
+			return strVal(Ite(Ge(t, IntLit(0)), StrFromInt(t), Concat(StrLit("-"), StrFromInt(Neg(t)))))
+		}
+		panic(engineError{"strconv.FormatInt symbolic with base != 10"})
 	})
 	reg("strconv.ParseBool", func(fr *frame, args []value) value {
 		if allConcrete(args) {
@@ -1040,4 +1047,44 @@ func (i *interpreter) lookupMethodSafe(t types.Type, name string) *ssa.Function 
 		}
 	}
 	return nil
+}
+
+// symParseIntBase0 models strconv.ParseInt(s, 0, 64) for the spellings a Go
+// integer literal of up to 6 bytes can have without a sign: decimal, octal
+// with a leading 0 (or 0o), hexadecimal 0x, binary 0b; underscores are not modelled
+// (such texts take the syntax-error path, as do all others).
+func (i *interpreter) symParseIntBase0(fr *frame, sv value) value {
+	s := mustTerm(sv)
+	p := i.path
+	dec := InRe(s, `(re.union (str.to_re "0") (re.++ (re.range "1" "9") (re.* (re.range "0" "9"))))`)
+	oct := InRe(s, `(re.++ (str.to_re "0") (re.opt (re.union (str.to_re "o") (str.to_re "O"))) (re.+ (re.range "0" "7")))`)
+	hex := InRe(s, `(re.++ (str.to_re "0") (re.union (str.to_re "x") (str.to_re "X")) (re.+ (re.union (re.range "0" "9") (re.range "a" "f") (re.range "A" "F"))))`)
+	bin := InRe(s, `(re.++ (str.to_re "0") (re.union (str.to_re "b") (str.to_re "B")) (re.+ (re.range "0" "1")))`)
+	switch p.fork([]*Term{dec, oct, hex, bin, Not(Or(dec, oct, hex, bin))}) {
+	case 0:
+		p.Assume(Le(StrLen(s), IntLit(18)))
+		return tuple{mkval(StrToInt(s), types.Int64), nilError()}
+	case 4:
+		return tuple{int64(0), i.mkNumError("ParseInt", sv, "invalid syntax")}
+	}
+	// positional notation: fix the length, then sum the digits
+	n := i.concretizeInt(StrLen(s), 2, 6)
+	base, start := int64(8), 1
+	code := func(k int) *Term { return StrCode(StrAt(s, IntLit(int64(k)))) }
+	c1 := code(1)
+	switch {
+	case p.branch(Or(Eq(c1, IntLit('x')), Eq(c1, IntLit('X')))):
+		base, start = 16, 2
+	case p.branch(Or(Eq(c1, IntLit('b')), Eq(c1, IntLit('B')))):
+		base, start = 2, 2
+	case p.branch(Or(Eq(c1, IntLit('o')), Eq(c1, IntLit('O')))):
+		base, start = 8, 2
+	}
+	val := IntLit(0)
+	for k := start; k < n; k++ {
+		c := code(k)
+		d := Ite(Le(c, IntLit('9')), Sub(c, IntLit('0')), Ite(Le(c, IntLit('F')), Sub(c, IntLit('A'-10)), Sub(c, IntLit('a'-10))))
+		val = Add(Mul(val, IntLit(base)), d)
+	}
+	return tuple{mkval(val, types.Int64), nilError()}
 }
